@@ -24,9 +24,23 @@ env = dict(os.environ, CARGO_NET_OFFLINE="true", LP_REPO=f"{SCR}/repo", LP_HARNE
 
 
 def sh(cmd, cwd, timeout=3000, e=None):
-    p = subprocess.run(cmd, shell=True, cwd=cwd, stdout=subprocess.PIPE, stderr=subprocess.STDOUT, text=True,
-                       env=e or env, timeout=timeout)
-    return p.returncode, p.stdout
+    """runs in its own process group; on timeout the whole group is killed (a mutant may loop for ever)"""
+    import signal
+    p = subprocess.Popen(cmd, shell=True, cwd=cwd, stdout=subprocess.PIPE, stderr=subprocess.STDOUT, text=True,
+                         env=e or env, start_new_session=True)
+    try:
+        out, _ = p.communicate(timeout=timeout)
+        return p.returncode, out
+    except subprocess.TimeoutExpired:
+        try:
+            os.killpg(p.pid, signal.SIGKILL)
+        except Exception:
+            pass
+        try:
+            out, _ = p.communicate(timeout=10)
+        except Exception:
+            out = ""
+        return 124, (out or "") + "\nTIMEOUT"
 
 
 os.makedirs(SCR, exist_ok=True)
@@ -119,15 +133,17 @@ for (path, i, old, new, op) in chosen:
     tests = {}
 
     def run_tests():
-        rc, o = sh("cargo test --workspace --no-fail-fast --offline 2>&1", f"{SCR}/repo")
+        rc, o = sh("cargo test --workspace --no-fail-fast --offline 2>&1", f"{SCR}/repo", timeout=420)
+        tests["timeout"] = rc == 124
         tests["passed"] = sum(int(m.group(1)) for m in re.finditer(r"test result: \w+\. (\d+) passed", o))
         tests["failed"] = sum(int(m.group(1)) for m in re.finditer(r"test result: \w+\. \d+ passed; (\d+) failed", o))
         tests["compiled"] = "error: could not compile" not in o and "error[E" not in o
 
     th = threading.Thread(target=run_tests)
     th.start()
-    rc, o = sh("./check ALL quick", "/verif")
+    rc, o = sh("./check ALL quick", "/verif", timeout=900)
     th.join()
+    rec["check_timeout"] = rc == 124
     rec["tests"] = tests
     if "ALL-BUILD-FAILED" in o or not tests.get("compiled", False):
         rec["status"] = "does-not-compile"
@@ -136,9 +152,9 @@ for (path, i, old, new, op) in chosen:
         rec["killed_by"] = sorted(set(re.search(r"property=(\S+)", l).group(1) for l in viol))
         rec["concrete"] = sorted(set(re.search(r"property=(\S+)", l).group(1) for l in viol if "concrete=1" in l))
         rec["first"] = [l[:260] for l in viol[:3]]
-        passes_tests = tests.get("failed", 1) == 0 and tests.get("passed", 0) >= 47
+        passes_tests = tests.get("failed", 1) == 0 and tests.get("passed", 0) >= 47 and not tests.get("timeout")
         rec["passes_tests"] = passes_tests
-        rec["status"] = ("killed" if viol else "SURVIVED") + ("" if passes_tests else " (tests also fail)")
+        rec["status"] = ("killed" if viol else ("CHECK-TIMEOUT" if rec["check_timeout"] else "SURVIVED")) + ("" if passes_tests else " (tests also fail)")
     rec["wall_s"] = round(time.time() - t0, 1)
     out.write(json.dumps(rec) + "\n")
     out.flush()
